@@ -1,7 +1,447 @@
-//! (stub) driver module - see tools/HOWTO.md
-use crate::util::Args;
+//! C11 driver: SAUCE metadata round trip and exactness of the content / SAUCE split.
+//!
+//! One case = one buffer with metadata, saved with SAUCE through `Buffer::to_bytes(ext)`, reloaded through
+//! `Buffer::from_bytes("x.<ext>")`.  Recorded per case (event `sauce`): metadata in, the tail of the file
+//! (EOF + comment block + record and a few content bytes), metadata out (`Buffer::get_sauce`), what
+//! `SauceData::extract` says about the header length, and digests of the two pictures (content alone, content + SAUCE).
+use crate::util::{guard, panic_site, rng, Args, Out};
+use icy_engine::{ascii::CP437_TO_UNICODE, AttributedChar, Buffer, IceMode, SauceData, SauceString, SaveOptions, TextAttribute, TextPane};
+use rand::rngs::StdRng;
+use rand::Rng;
+use serde_json::{json, Value};
+use std::path::PathBuf;
 
-pub fn c11(_a: &Args) {
-    eprintln!("c11: driver not built yet");
-    std::process::exit(2);
+pub const WRITERS: [&str; 10] = ["ans", "asc", "avt", "pcb", "bin", "xb", "tnd", "adf", "idf", "icy"];
+
+#[derive(Clone, Debug)]
+struct Case {
+    writer: String,
+    title: Vec<u8>,
+    author: Vec<u8>,
+    group: Vec<u8>,
+    comments: Vec<Vec<u8>>,
+    font: Option<Vec<u8>>, // None = the default font of a fresh buffer
+    ice: bool,
+    ls: bool,
+    ar: bool,
+    width: i32,
+    height: i32,
+    tail: String,
+    lossless: bool,
+    compress: bool,
+    desc: Value,
+}
+
+fn cp437_string(b: &[u8]) -> String {
+    b.iter().map(|&c| CP437_TO_UNICODE[c as usize]).collect()
+}
+
+fn string_cp437(s: &str) -> Vec<i64> {
+    s.chars().map(|ch| CP437_TO_UNICODE.iter().position(|&c| c == ch).map_or(-1, |p| p as i64)).collect()
+}
+
+fn field<const L: usize, const E: u8>(s: &SauceString<L, E>) -> Vec<u8> {
+    let mut v = Vec::new();
+    s.append_to(&mut v);
+    v
+}
+
+/// text of `len` non-NUL CP437 bytes whose last byte is not a pad, followed by `trailing` pads
+fn text(r: &mut StdRng, len: usize, max: usize, trailing: &str, ascii_only: bool) -> Vec<u8> {
+    let mut v: Vec<u8> = (0..len).map(|_| if ascii_only { r.gen_range(33..127u8) } else { r.gen_range(1..=255u8) }).collect();
+    if let Some(l) = v.last_mut() {
+        if *l == b' ' {
+            *l = b'#';
+        }
+    }
+    let room = max - len.min(max);
+    let k = match trailing {
+        "none" => 0,
+        _ => room.min(1 + (len % 3)),
+    };
+    for _ in 0..k {
+        v.push(if trailing == "blank" { b' ' } else { 0 });
+    }
+    v
+}
+
+fn class_len(class: u64, max: usize) -> usize {
+    match class {
+        0 => 0,
+        1 => 1,
+        2 => max - 1,
+        _ => max,
+    }
+}
+
+fn marker(tail: &str) -> &'static [u8] {
+    match tail {
+        "sauce" => b"SAUCE00",
+        "comnt" => b"COMNT",
+        "eof" => b"\x1a\x1a",
+        _ => b"",
+    }
+}
+
+fn build_buffer(c: &Case, r: &mut StdRng) -> Buffer {
+    let mut buf = Buffer::new((c.width, c.height));
+    buf.ice_mode = if c.ice { IceMode::Ice } else { IceMode::Blink };
+    if let Some(name) = &c.font {
+        let mut f = buf.get_font(0).unwrap().clone();
+        f.name = cp437_string(name);
+        buf.set_font(0, f);
+    }
+    let pairs = matches!(c.writer.as_str(), "bin" | "adf" | "xb" | "idf");
+    // cells: letters on the default attribute; rows are full width for the fixed-grid formats, ragged otherwise
+    for y in 0..c.height {
+        let len = if pairs || c.writer == "tnd" || c.writer == "icy" { c.width } else if y + 1 == c.height { (c.width * 3 / 4).max(1) } else { r.gen_range(0..=c.width) };
+        for x in 0..len {
+            let ch = if r.gen_bool(0.2) { ' ' } else { r.gen_range(b'a'..=b'z') as char };
+            let attr = if r.gen_bool(0.85) { TextAttribute::default() } else { TextAttribute::new(r.gen_range(1..16), r.gen_range(0..8)) };
+            buf.layers[0].set_char((x, y), AttributedChar::new(ch, attr));
+        }
+    }
+    // content whose own last bytes look like SAUCE / COMNT / EOF markers
+    let m = marker(&c.tail);
+    if !m.is_empty() {
+        let y = c.height - 1;
+        if pairs && c.writer != "idf" {
+            let mut bytes = m.to_vec();
+            if bytes.len() % 2 == 1 {
+                bytes.insert(0, b'x');
+            }
+            let n = (bytes.len() / 2) as i32;
+            if n <= c.width {
+                for i in 0..n {
+                    let attr = TextAttribute::from_u8(bytes[2 * i as usize + 1], buf.ice_mode);
+                    buf.layers[0].set_char((c.width - n + i, y), AttributedChar::new(bytes[2 * i as usize] as char, attr));
+                }
+            }
+        } else if !pairs && c.writer != "icy" {
+            let n = m.len() as i32;
+            let end = if c.writer == "tnd" { c.width } else { buf.get_line_length(y).max(n.min(c.width)) };
+            if n <= end {
+                let attr = buf.get_char((0.max(end - n - 1), y)).attribute;
+                for i in 0..n {
+                    buf.layers[0].set_char((end - n + i, y), AttributedChar::new(m[i as usize] as char, attr));
+                }
+            }
+        }
+    }
+    let sd = SauceData {
+        title: SauceString::from(cp437_string(&c.title)),
+        author: SauceString::from(cp437_string(&c.author)),
+        group: SauceString::from(cp437_string(&c.group)),
+        comments: c.comments.iter().map(|l| SauceString::from(cp437_string(l))).collect(),
+        use_ice: c.ice,
+        use_letter_spacing: c.ls,
+        use_aspect_ratio: c.ar,
+        font_opt: Some(buf.get_font(0).unwrap().name.clone()),
+        buffer_size: buf.get_size(),
+        ..Default::default()
+    };
+    buf.set_sauce(Some(sd), false);
+    buf
+}
+
+/// FNV-1a digest of what a buffer shows, plus its size
+fn picture(buf: &Buffer) -> (String, Vec<(u32, (u8, u8, u8), (u8, u8, u8), u16, usize)>, i32, i32) {
+    let mut cells = Vec::new();
+    let (w, h) = (buf.get_width(), buf.get_height());
+    for y in 0..h {
+        for x in 0..w {
+            let ch = buf.get_char((x, y));
+            cells.push((ch.ch as u32, buf.palette.get_rgb(ch.attribute.get_foreground()), buf.palette.get_rgb(ch.attribute.get_background()), ch.attribute.attr, ch.get_font_page()));
+        }
+    }
+    let mut hsh: u64 = 0xcbf2_9ce4_8422_2325;
+    let mut eat = |v: u64| {
+        for i in 0..8 {
+            hsh ^= (v >> (8 * i)) & 0xFF;
+            hsh = hsh.wrapping_mul(0x0000_0100_0000_01B3);
+        }
+    };
+    eat(w as u64);
+    eat(h as u64);
+    eat(match buf.ice_mode { IceMode::Unlimited => 0, IceMode::Blink => 1, IceMode::Ice => 2 });
+    for c in &cells {
+        eat(c.0 as u64);
+        eat(((c.1 .0 as u64) << 16) | ((c.1 .1 as u64) << 8) | c.1 .2 as u64);
+        eat(((c.2 .0 as u64) << 16) | ((c.2 .1 as u64) << 8) | c.2 .2 as u64);
+        eat(c.3 as u64);
+        eat(c.4 as u64);
+    }
+    (format!("{w}x{h}:{hsh:016x}"), cells, w, h)
+}
+
+fn load(ext: &str, bytes: &[u8]) -> Result<Result<Buffer, String>, crate::util::PanicInfo> {
+    let name = PathBuf::from(format!("x.{ext}"));
+    guard(|| Buffer::from_bytes(&name, true, bytes).map_err(|e| e.to_string()))
+}
+
+/// the SAUCE chunk of an IcyDraw file (base64 inside a zTXt chunk), or None
+fn icy_sauce_chunk(file: &[u8]) -> Option<Vec<u8>> {
+    use base64::Engine;
+    let dec = png::Decoder::new(file);
+    let reader = dec.read_info().ok()?;
+    for t in &reader.info().compressed_latin1_text {
+        if t.keyword == "SAUCE" {
+            let txt = t.get_text().ok()?;
+            return base64::engine::general_purpose::STANDARD.decode(txt).ok();
+        }
+    }
+    None
+}
+
+fn run_case(c: &Case, id: u64, seed: u64, out: &mut Out) {
+    let mut r = rng(seed, 77_000 + id);
+    let buf = build_buffer(c, &mut r);
+    let ext = c.writer.as_str();
+    let font_in: Vec<i64> = string_cp437(&buf.get_font(0).unwrap().name);
+    out.ev(&json!({"ev":"reset","case":id,"desc":c.desc}));
+    let meta_in = json!({"title":c.title,"author":c.author,"group":c.group,"comments":c.comments,"ice":c.ice as u8,"ls":c.ls as u8,"ar":c.ar as u8,
+                         "font":font_in,"width":c.width,"height":c.height});
+    let mut ev = json!({"ev":"sauce","case":id,"writer":ext,"in":meta_in,"tailkind":c.tail,"lossless":c.lossless as u8,"compress":c.compress as u8});
+    let mut opts = SaveOptions::new();
+    opts.save_sauce = true;
+    opts.lossles_output = c.lossless;
+    opts.compress = c.compress;
+    let saved = guard(|| buf.to_bytes(ext, &opts).map_err(|e| e.to_string()));
+    let file = match saved {
+        Ok(Ok(f)) => f,
+        Ok(Err(e)) => {
+            ev["save"] = json!("err");
+            ev["site"] = json!(crate::util::msg_class(&e));
+            out.ev(&ev);
+            return;
+        }
+        Err(p) => {
+            ev["save"] = json!("panic");
+            ev["site"] = json!(panic_site(&p));
+            out.ev(&ev);
+            return;
+        }
+    };
+    ev["save"] = json!("ok");
+    // the same buffer saved without SAUCE = "the content alone"
+    let content = {
+        let mut o2 = opts.clone();
+        o2.save_sauce = false;
+        let mut b2 = buf.flat_clone(true);
+        if ext == "icy" {
+            b2.set_sauce(None, false);
+        }
+        match guard(|| b2.to_bytes(ext, &o2).map_err(|e| e.to_string())) {
+            Ok(Ok(f)) => f,
+            _ => Vec::new(),
+        }
+    };
+    // the part of the file the specification's Split has to look at
+    let (blob, content_len, prefix_ok) = if ext == "icy" {
+        (icy_sauce_chunk(&file).unwrap_or_default(), 0usize, 1u8)
+    } else {
+        (file.clone(), content.len(), file.starts_with(&content) as u8)
+    };
+    let n = if blob.len() >= 128 { blob[blob.len() - 128 + 104] as usize } else { 0 };
+    let want = 128 + 5 + 64 * n + 1 + 12;
+    let tail = &blob[blob.len().saturating_sub(want)..];
+    ev["file_len"] = json!(blob.len());
+    ev["content_len"] = json!(content_len);
+    ev["prefix_ok"] = json!(prefix_ok);
+    ev["tail"] = json!(tail);
+    // what the engine's extractor says about the same bytes (model layer)
+    match guard(|| SauceData::extract(&blob).map_err(|e| e.to_string())) {
+        Ok(Ok(Some(s))) => ev["ex_hdr"] = json!(s.sauce_header_len),
+        Ok(Ok(None)) => ev["ex_hdr"] = json!(0),
+        Ok(Err(_)) => ev["ex_hdr"] = json!(-1),
+        Err(p) => {
+            ev["ex_hdr"] = json!(-2);
+            ev["ex_site"] = json!(panic_site(&p));
+        }
+    }
+    // load content + SAUCE
+    match load(ext, &file) {
+        Ok(Ok(b)) => {
+            ev["load"] = json!("ok");
+            match b.get_sauce() {
+                Some(s) => {
+                    ev["has_sauce"] = json!(1);
+                    let font = s.font_opt.as_ref().map(|f| string_cp437(f));
+                    ev["out"] = json!({"title":field(&s.title),"author":field(&s.author),"group":field(&s.group),
+                        "comments":s.comments.iter().map(field).collect::<Vec<_>>(),"ice":s.use_ice as u8,"ls":s.use_letter_spacing as u8,"ar":s.use_aspect_ratio as u8,
+                        "has_font":font.is_some() as u8,"font":font.unwrap_or_default(),"width":s.buffer_size.width,"height":s.buffer_size.height,"hdr":s.sauce_header_len});
+                }
+                None => {
+                    ev["has_sauce"] = json!(0);
+                    ev["out"] = json!({});
+                }
+            }
+            let (d_full, cells_full, w, _h) = picture(&b);
+            ev["pic_full"] = json!(d_full);
+            ev["buf_width"] = json!(b.get_width());
+            match load(ext, &content) {
+                Ok(Ok(b2)) => {
+                    let (d_c, cells_c, w2, _) = picture(&b2);
+                    ev["load_content"] = json!("ok");
+                    ev["pic_content"] = json!(d_c);
+                    let mut diff = json!([]);
+                    if w == w2 {
+                        if let Some(i) = (0..cells_full.len().max(cells_c.len())).find(|&i| cells_full.get(i) != cells_c.get(i)) {
+                            diff = json!([i as i32 % w.max(1), i as i32 / w.max(1)]);
+                        }
+                    }
+                    ev["pic_diff"] = diff;
+                }
+                Ok(Err(e)) => {
+                    ev["load_content"] = json!("err");
+                    ev["pic_content"] = json!(format!("err:{}", crate::util::msg_class(&e)));
+                }
+                Err(p) => {
+                    ev["load_content"] = json!("panic");
+                    ev["pic_content"] = json!(format!("panic:{}", panic_site(&p)));
+                }
+            }
+        }
+        Ok(Err(e)) => {
+            ev["load"] = json!("err");
+            ev["site"] = json!(crate::util::msg_class(&e));
+        }
+        Err(p) => {
+            ev["load"] = json!("panic");
+            ev["site"] = json!(panic_site(&p));
+        }
+    }
+    out.ev(&ev);
+}
+
+/// constraints of the writers themselves (not of SAUCE): ADF is 80 columns and iCE only, IDF is iCE only
+fn normalise(c: &mut Case) {
+    match c.writer.as_str() {
+        "adf" => {
+            c.width = 80;
+            c.ice = true;
+        }
+        "idf" => c.ice = true,
+        _ => {}
+    }
+    if c.width > 300 {
+        c.height = 1;
+    }
+}
+
+fn case_from_gen(v: &Value, id: u64, seed: u64) -> Case {
+    let mut r = rng(seed, 55_000 + id);
+    let u = |k: &str| v[k].as_u64().unwrap_or(0);
+    let tr = v["trailing"].as_str().unwrap_or("none").to_string();
+    let n = u("ncomments") as usize;
+    let clen = class_len(u("clen"), 64);
+    let comments = (0..n).map(|i| text(&mut r, if i % 2 == 0 { clen } else { (clen + i) % 65 }, 64, &tr, false)).collect();
+    let flen = u("flen");
+    let mut c = Case {
+        writer: v["writer"].as_str().unwrap_or("ans").to_string(),
+        title: text(&mut r, class_len(u("tlen"), 35), 35, &tr, false),
+        author: text(&mut r, class_len(u("alen"), 20), 20, &tr, false),
+        group: text(&mut r, class_len(u("glen"), 20), 20, &tr, false),
+        comments,
+        font: if flen >= 4 { None } else { Some(text(&mut r, class_len(flen, 22), 22, "none", true)) },
+        ice: u("ice") == 1,
+        ls: u("ls") == 1,
+        ar: u("ar") == 1,
+        width: u("width") as i32,
+        height: 1 + (id % 3) as i32,
+        tail: v["tail"].as_str().unwrap_or("plain").to_string(),
+        lossless: id % 2 == 0,
+        compress: v["tail"].as_str().unwrap_or("plain") == "plain" && id % 4 < 2,
+        desc: v.clone(),
+    };
+    normalise(&mut c);
+    c
+}
+
+fn random_case(id: u64, seed: u64) -> Case {
+    let mut r = rng(seed, 33_000 + id);
+    let trs = ["none", "blank", "nul"];
+    let tr = trs[r.gen_range(0..3)];
+    let n = match r.gen_range(0..10) {
+        0..=3 => 0,
+        4..=7 => r.gen_range(1..6),
+        8 => r.gen_range(6..=60),
+        _ => r.gen_range(200..=255),
+    };
+    let width = match r.gen_range(0..6) {
+        0 | 1 => 80,
+        2 => 160,
+        3 => r.gen_range(1..=1000),
+        4 => 2 * r.gen_range(1..=255),
+        _ => r.gen_range(1..=132),
+    };
+    let tails = ["plain", "plain", "sauce", "comnt", "eof"];
+    let tail = tails[r.gen_range(0..5)];
+    let names = ["IBM VGA50", "IBM EGA", "Amiga Topaz 1", "IBM VGA 855"];
+    let font = match r.gen_range(0..4) {
+        0 | 1 => None,
+        2 => Some(names[r.gen_range(0..names.len())].as_bytes().to_vec()),
+        _ => {
+            let l = r.gen_range(0..=22);
+            Some(text(&mut r, l, 22, "none", true))
+        }
+    };
+    let (tl, al, gl) = (r.gen_range(0..=35), r.gen_range(0..=20), r.gen_range(0..=20));
+    let (tr_a, tr_g) = (trs[r.gen_range(0..3)], trs[r.gen_range(0..3)]);
+    let mut c = Case {
+        writer: WRITERS[(id % 10) as usize].to_string(),
+        title: text(&mut r, tl, 35, tr, false),
+        author: text(&mut r, al, 20, tr_a, false),
+        group: text(&mut r, gl, 20, tr_g, false),
+        comments: (0..n).map(|_| { let l = r.gen_range(0..=64); let t = trs[r.gen_range(0..3)]; text(&mut r, l, 64, t, false) }).collect(),
+        font,
+        ice: r.gen_bool(0.4),
+        ls: r.gen_bool(0.4),
+        ar: r.gen_bool(0.4),
+        width,
+        height: r.gen_range(1..=4),
+        tail: tail.to_string(),
+        lossless: r.gen_bool(0.5),
+        compress: tail == "plain" && r.gen_bool(0.5),
+        desc: json!({"slice":"R"}),
+    };
+    normalise(&mut c);
+    c
+}
+
+pub fn c11(a: &Args) {
+    let path = a.str("out", "work/C11/trace");
+    let seed = a.u64("seed", 0);
+    let thorough = a.str("tier", "quick") == "thorough";
+    let shards = a.usize("shards", 4);
+    let mut outs: Vec<Out> = (0..shards).map(|i| Out::create(&format!("{path}-{i}.ndjson"))).collect();
+    let mut id = 0u64;
+    let mut n_gen = 0;
+    if let Ok(textf) = std::fs::read_to_string(a.str("gen", "gen/sauce.ndjson")) {
+        for line in textf.lines() {
+            let Ok(v) = serde_json::from_str::<Value>(line) else { continue };
+            id += 1;
+            // quick tier: all of slices B and C, every third case of the (large) string-length slice A
+            if !thorough && v["slice"] == "A" && (id + seed) % 3 != 0 {
+                continue;
+            }
+            let c = case_from_gen(&v, id, seed);
+            let k = (id as usize) % shards;
+            run_case(&c, id, seed, &mut outs[k]);
+            n_gen += 1;
+        }
+    }
+    let n_rnd = if thorough { 6000 } else { 600 };
+    for i in 0..n_rnd {
+        id += 1;
+        let c = random_case(1_000_000 + i, seed);
+        let k = (id as usize) % shards;
+        run_case(&c, 1_000_000 + i, seed, &mut outs[k]);
+    }
+    let mut total = 0;
+    for o in &mut outs {
+        o.flush();
+        total += o.n;
+    }
+    eprintln!("c11: {n_gen} TLC-generated cases, {n_rnd} random cases, {total} events in {shards} shards");
 }
